@@ -944,7 +944,9 @@ func (m *Monitors) joinEntitled(st *Step, A *verifview.Session, c *verifview.Cha
 		// the one-minute grace starts when the session presented a captcha that this monitor's
 		// own verifier accepts (not when the state says so)
 		solvedAt, solved := m.solved[A.Id]
-		ok := solved && time.Duration(e.UnixNano-solvedAt) < time.Minute && e.UnixNano >= solvedAt
+		// (the entry after the solved captcha may carry a slightly EARLIER timestamp: a new
+		// leader whose clock lags within the 2s the time safeguard admits)
+		ok := solved && time.Duration(e.UnixNano-solvedAt) < time.Minute && time.Duration(e.UnixNano-solvedAt) > -2*time.Second
 		// a captcha solved for an earlier channel of the same JOIN line opens the one-minute grace
 		for _, k := range keys {
 			if VerifyCaptcha(st.Before.Config.CaptchaHMACSecret, k, e.UnixNano) {
